@@ -8,6 +8,7 @@ import (
 	"path/filepath"
 	"strings"
 	"sync"
+	"sync/atomic"
 
 	"golang.org/x/tools/go/packages"
 	"golang.org/x/tools/go/ssa"
@@ -17,19 +18,23 @@ import (
 const RepoModule = "github.com/karagenc/socket.io-go"
 
 type Program struct {
-	Prog    *ssa.Program
-	Fset    *token.FileSet
-	Pkg     *ssa.Package // harness package
-	Pkgs    []*packages.Package
-	mu      sync.Mutex
-	built   map[*ssa.Package]bool
-	errType types.Type
-	rtypeT  types.Type
-	msCache sync.Map
-	RepoDir string
-	Overlay map[string][]byte
-	PkgPath string
-	PkgDir  string
+	Prog *ssa.Program
+	Fset *token.FileSet
+	Pkg  *ssa.Package // harness package
+	Pkgs []*packages.Package
+	mu   sync.Mutex
+	// building counts package builds in progress: ssa builds function bodies in place, so a worker must not look at any
+	// function (generic instances and wrappers belong to no package) while another worker's Build is running
+	building  atomic.Int32
+	built     map[*ssa.Package]bool
+	builtFast sync.Map
+	errType   types.Type
+	rtypeT    types.Type
+	msCache   sync.Map
+	RepoDir   string
+	Overlay   map[string][]byte
+	PkgPath   string
+	PkgDir    string
 }
 
 // Load loads pkgPath (relative to the repo module, "" = root) with overlay files injected.
@@ -90,8 +95,25 @@ func (p *Program) build(pkg *ssa.Package) {
 	if p.built[pkg] {
 		return
 	}
+	p.building.Add(1)
 	pkg.Build()
 	p.built[pkg] = true
+	p.builtFast.Store(pkg, true)
+	p.building.Add(-1)
+}
+
+// isBuilt reports whether the package's functions have been built completely.
+func (p *Program) isBuilt(pkg *ssa.Package) bool {
+	_, ok := p.builtFast.Load(pkg)
+	return ok
+}
+
+// waitBuild returns once no package build is in progress.
+func (p *Program) waitBuild() {
+	if p.building.Load() != 0 {
+		p.mu.Lock()
+		p.mu.Unlock() //nolint:staticcheck // barrier only
+	}
 }
 
 func (p *Program) lookupMethod(t types.Type, meth *types.Func) *ssa.Function {
